@@ -66,11 +66,18 @@ def graph_invariants(gwy: Any, max_zones: int) -> list[tuple[str, str]]:
     for dev_id, zs in zone_actuators.items():
         if len(set(zs)) > 1:
             bad.append(("device-actuator-of-two-zones", f"{dev_id}: {zs}"))
+    reachable = set()
+    for tcs in gwy.systems:
+        reachable |= {id(tcs)} | {id(z) for z in tcs.zones} | ({id(tcs.dhw)} if tcs.dhw else set())
     for d in gwy.devices:
         p = getattr(d, "_parent", None)
         if p is not None and hasattr(p, "childs"):
             if d not in p.childs:
                 bad.append(("parent-does-not-list-child", f"{d} -> {p}"))
+            # 'each device belongs to at most one controller and one zone/role': the zone / hot-water object it belongs to is one that its
+            # controller actually has (not a second, unattached object for the same index - the schema would not show the membership)
+            if (hasattr(p, "idx") or type(p).__name__ == "DhwZone") and getattr(p, "tcs", None) is not None and id(p) not in reachable:
+                bad.append(("parent-zone-not-attached-to-its-controller", f"{d} -> {p} (tcs zones: {[z.id for z in p.tcs.zones]})"))
     for tcs in gwy.systems:
         parents = [tcs] + list(tcs.zones) + ([tcs.dhw] if tcs.dhw else [])
         for p in parents:
